@@ -107,7 +107,7 @@ Example C05_pipeline_example :
   let base := [[]; cc; cc; [98]%N; [49; 55; 48; 48; 48; 48; 48; 48; 48; 48; 48; 48; 49]%N; k1] in
   let msg := fn ++ concat base in
   let tbl := [(k1, KI 1 0 false)] in
-  let mk sg := AuthIn 2 fn (base ++ [[115]%N]) cc cc (AclOk 9 false false 1 [0]%N) tbl [sg] in
+  let mk sg := AuthIn 2 fn (base ++ [[115]%N]) cc cc (AclOk 9 false false 1 [0]%N) tbl [sg] (Some cc) in
   let m := Method 1 MTx true GNone false in
   let e := PEnv (GCfg 77 5 [] false false) [[SPut 4 [42]%N]] m in
   let robot := Creator true 77 0 false in let user := Creator true 8 0 false in
